@@ -11,6 +11,7 @@ import (
 	"sort"
 	"strings"
 	"testing"
+	"unicode/utf8"
 
 	"github.com/jf-tech/omniparser"
 	"github.com/jf-tech/omniparser/errs"
@@ -32,6 +33,10 @@ type c02El struct {
 	Text  string      `json:"t,omitempty"` // leading text
 	Kids  []c02El     `json:"k,omitempty"`
 	Tail  string      `json:"tail,omitempty"` // text after the children (xml mixed content)
+	// TextMode (xml, non-empty Text): 0 escaped text; 1 one CDATA section; 2 text + CDATA; 3 text, comment, text; 4 two CDATA
+	// sections; 5 text, processing instruction, text - the element's character data is the same, the tree holds several
+	// adjacent text nodes for 2..5.
+	TextMode int `json:"tm,omitempty"`
 }
 
 type c02Case struct {
@@ -64,6 +69,9 @@ func c02DrawEl(t *rapid.T, label string, depth int, xml bool) c02El {
 	}
 	if nk == 0 || (xml && rapid.IntRange(0, 4).Draw(t, label+"mixed") == 0) {
 		e.Text = rapid.SampledFrom(c02Texts).Draw(t, label+"t")
+		if xml && e.Text != "" && rapid.IntRange(0, 3).Draw(t, label+"split") == 0 {
+			e.TextMode = rapid.IntRange(1, 5).Draw(t, label+"tm")
+		}
 	}
 	for i := 0; i < nk; i++ {
 		e.Kids = append(e.Kids, c02DrawEl(t, fmt.Sprintf("%sk%d", label, i), depth+1, xml))
@@ -78,13 +86,42 @@ func c02XMLEsc(s string) string {
 	return strings.NewReplacer("&", "&amp;", "<", "&lt;", ">", "&gt;", "\"", "&quot;", "\t", "&#9;").Replace(s)
 }
 
+func c02CharData(v string, mode int) string {
+	if mode == 0 || v == "" {
+		return c02XMLEsc(v)
+	}
+	cdata := func(x string) string {
+		if strings.Contains(x, "]]>") {
+			return c02XMLEsc(x)
+		}
+		return "<![CDATA[" + x + "]]>"
+	}
+	cut := len(v) / 2
+	for cut > 0 && !utf8.RuneStart(v[cut]) {
+		cut--
+	}
+	a, b := v[:cut], v[cut:]
+	switch mode {
+	case 1:
+		return cdata(v)
+	case 2:
+		return c02XMLEsc(a) + cdata(b)
+	case 3:
+		return c02XMLEsc(a) + "<!-- c -->" + c02XMLEsc(b)
+	case 4:
+		return cdata(a) + cdata(b)
+	default:
+		return c02XMLEsc(a) + "<?p i?>" + c02XMLEsc(b)
+	}
+}
+
 func (e c02El) xml(b *strings.Builder, name string) {
 	b.WriteString("<" + name)
 	for _, a := range e.Attrs {
 		fmt.Fprintf(b, " %s=\"%s\"", a[0], c02XMLEsc(a[1]))
 	}
 	b.WriteString(">")
-	b.WriteString(c02XMLEsc(e.Text))
+	b.WriteString(c02CharData(e.Text, e.TextMode))
 	for _, k := range e.Kids {
 		k.xml(b, k.Name)
 	}
